@@ -1,9 +1,14 @@
 PROP = dict(
-    coq=["Pipe/FootprintHarness.vo", "Pipe/PipeExamples.vo"],
+    coq=["Pipe/FootprintHarness.vo", "Pipe/PipeExamples.vo", "Rate/RateHarness.vo"],
     legs=[
         dict(driver="footprint", quick=8, thorough=120, shard=8, noshrink=True,
              monitors=["both_runs_reach_quiescence", "reactor_tracks_nothing_and_all_tokens_free", "no_body_or_temp_file_left",
                        "limiter_table_within_bound", "fds_and_goroutines_do_not_grow_from_N_to_4N"]),
+        # the real BucketManager under a stream of Wait / failure / success reports and cleanups (driver shared with C13;
+        # only the table-bound monitor belongs to this property)
+        dict(driver="mgr", binary="zrate", corpus_from="C13", quick=60, thorough=800, shard=30, only_monitors=[0],
+             monitors=["table_bounded", "lifetime_window_bound", "lifetime_penalty_honoured",
+                       "host_window_bound_across_evictions", "host_penalty_across_evictions"]),
     ],
     partial="Goroutine and file-descriptor counts are facts of the Go runtime and the OS that no executable model can exhibit: they are "
             "measured (N against 4N seeds, separate processes, same configuration), not proved; the comparison tolerates a few idle "
